@@ -44,6 +44,32 @@ def scan(proj, f, seen=None, depth=0, data_params=None):
 
     def dep(node):
         return any(p.split(".")[0].split("[")[0] in params for p in ctx.deps(node, False))
+    # branches on the number of entries: `x.shape[0] != 2`, `x.size == 1`, `len(x) > 3` with x an
+    # argument-dependent array -- the value computed for a cell depends on how many cells there are
+    def extent(node):
+        if isinstance(node, ast.Subscript) and isinstance(node.value, ast.Attribute) and node.value.attr == "shape" and dep(node.value.value):
+            return "shape"
+        if isinstance(node, ast.Attribute) and node.attr == "size" and dep(node.value):
+            return "size"
+        if isinstance(node, ast.Call) and isinstance(node.func, ast.Name) and node.func.id == "len" and len(node.args) == 1 and dep(node.args[0]):
+            return "len"
+        return None
+
+    def only_diagnostic(stmts):
+        return all(isinstance(st, (ast.Raise, ast.Pass, ast.Assert)) or (isinstance(st, ast.Expr) and isinstance(st.value, ast.Call) and isinstance(st.value.func, ast.Name) and st.value.func.id == "print") for st in stmts)
+    for n in ast.walk(f.node):
+        tests = []
+        if isinstance(n, ast.If) and not (only_diagnostic(n.body) and not n.orelse):
+            tests.append(n.test)
+        elif isinstance(n, ast.IfExp):
+            tests.append(n.test)
+        for t in tests:
+            for c in ast.walk(t):
+                if isinstance(c, ast.Compare) and len(c.ops) == 1:
+                    l, r = c.left, c.comparators[0]
+                    for a, b in ((l, r), (r, l)):
+                        if extent(a) and isinstance(b, ast.Constant) and isinstance(b.value, int):
+                            out.append((f.qualname, c.lineno, unparse(c)[:70], "the branch taken depends on the number of entries of an argument (a 1D array of exactly %s cells takes the other path)" % b.value))
     for n in ast.walk(f.node):
         if not isinstance(n, ast.Call):
             continue
